@@ -246,3 +246,33 @@ func Verif_C13_tounicode_text() {
 	}
 	verifrt.Assert(same, "destination text is the UTF-16BE decoding of the bytes")
 }
+
+// verifRunTexts: texts whose last code point sits at the edges of the
+// Unicode range, where "the next code point" does not exist or is not what
+// incrementing a number gives (surrogates, U+FFFD, U+10FFFF).
+var verifRunTexts = []string{"A", "B", "C", "퟿", "�", "￾", "￿", "\U00010000", "\U0010ffff", "x퟿", "x�"}
+
+// Verif_C13_tounicode_runs: three (thorough: four) consecutive one-byte codes
+// with texts from the boundary list, so that run compression is attempted on
+// every pattern of neighbours: every code looks up to its own text.
+func Verif_C13_tounicode_runs() {
+	cs := charcode.Simple
+	n := 3 + verifrt.Tier()
+	base := charcode.Code(verifrt.IntRange("base", 0, 200))
+	data := map[charcode.Code]string{}
+	for i := 0; i < n; i++ {
+		data[base+charcode.Code(i)] = verifRunTexts[verifrt.Choice("text", len(verifRunTexts))]
+	}
+	tu, err := NewToUnicodeFile(cs, data)
+	verifrt.Assert(err == nil && tu != nil, "NewToUnicodeFile succeeds")
+	verifrt.Cover("tounicode built")
+	all := true
+	for i := 0; i < n; i++ {
+		c := base + charcode.Code(i)
+		s, ok := tu.Lookup([]byte{byte(c)})
+		if !ok || s != data[c] {
+			all = false
+		}
+	}
+	verifrt.Assert(all, "every code of a run gives its own text")
+}
